@@ -292,6 +292,10 @@ pub fn trace_random(vctx: &valve::Ctx, players: &LayoutSet, seed: u64, runs: usi
             }
         };
         out.push(json!({"ev":"Return","res":res}));
+        if std::env::var("VH_DUMP_RUN").ok().and_then(|v| v.parse::<usize>().ok()) == Some(ix) {
+            eprintln!("DUMP run {ix}: case {} order {:?}\n script {}\n outcome {}\n inorder {}", c.name, order, serde_json::to_string(&script).unwrap(),
+                      rec.outcome.to_json(), inorder.outcome.to_json());
+        }
         ix += 1;
     }
 }
